@@ -65,6 +65,6 @@ m={"version":1,
  "engines":[{"name":"goitsym","path":"/verif/engine","serves_properties":sorted(P.keys()),"kind_free_text":"symbolic executor for Goit's go/ssa form written for this task: path conditions in SMT-LIB2 (QF_BV) decided by z3 4.8.12 over pipes; intrinsic models for the standard library, file system, process start, crash and fault indices"}],
  "checks":checks,
  "not_applicable":[],
- "notes":"Each check reloads /repo's current working tree with go/packages (overlaying /verif/harness/**) and rebuilds the SSA on every run; nothing is cached. known_findings.json lists 27 defects found by these checks and repaired by 'fix:' commits in /repo; no unrepaired finding is listed."}
+ "notes":"Each check reloads /repo's current working tree with go/packages (overlaying /verif/harness/**) and rebuilds the SSA on every run; nothing is cached. known_findings.json lists 28 defects found by these checks and repaired by 'fix:' commits in /repo; no unrepaired finding is listed."}
 json.dump(m,open('/verif/MANIFEST.json','w'),indent=1)
 print("ok",len(checks))
